@@ -35,6 +35,24 @@ type Canon struct {
 	// body `return e`, deterministic observer): the declaration, or nil.
 	InlineExpr func(call *ast.CallExpr) *ast.FuncDecl
 	env        map[types.Object]ast.Expr // parameters of the helpers being printed -> the caller's arguments
+	idxLoops   map[types.Object]ast.Expr // loop counters -> the collection they count through
+	rangeVals  map[types.Object]ast.Expr // range value variables -> the collection
+	loopsDone  bool
+	body       *ast.BlockStmt
+	inlBodies  []ast.Node
+}
+
+func (c *Canon) loops() {
+	if c.loopsDone {
+		return
+	}
+	c.loopsDone = true
+	bodies := append([]ast.Node{}, c.inlBodies...)
+	if c.body != nil {
+		bodies = append(bodies, c.body)
+	}
+	c.idxLoops = IndexLoops(c.Info, bodies)
+	c.rangeVals = RangeValues(c.Info, bodies)
 }
 
 // inlineCall binds the parameters of an expression helper to the arguments of call and returns the helper's returned
@@ -123,6 +141,10 @@ func (c *Canon) AddInlined(body *ast.BlockStmt, inl []*InlinedCall, alias map[ty
 	if alias != nil {
 		c.alias = alias
 	}
+	for _, ic := range inl {
+		c.inlBodies = append(c.inlBodies, ic.Decl.Body)
+	}
+	c.loopsDone = false
 	bodies := []ast.Node{body}
 	for _, ic := range inl {
 		for p, arg := range ic.Subst {
@@ -238,6 +260,11 @@ func NewCanon(info *types.Info, pkg *types.Package, recv *ast.FieldList, ftype *
 type LocalAlias struct {
 	Name string
 	Ord  int
+	// loop forms, relative to the form the rule tables were written for:
+	// ElemName: for the counter i of a loop over X: X[i] prints as this name (the tables knew a range value variable).
+	// IndexAs: for the value variable of a range over X: it prints as X[IndexAs] (the tables knew an index loop).
+	ElemName string
+	IndexAs  string
 }
 
 func NewCanonAliased(info *types.Info, pkg *types.Package, recv *ast.FieldList, ftype *ast.FuncType, body *ast.BlockStmt, outer *Canon, alias map[types.Object]LocalAlias) *Canon {
@@ -304,6 +331,14 @@ func NewCanonAliased(info *types.Info, pkg *types.Package, recv *ast.FieldList, 
 	if outer != nil {
 		for k, v := range outer.names {
 			c.names[k] = v
+		}
+	}
+	c.body = body
+	if outer != nil {
+		c.idxLoops, c.rangeVals, c.loopsDone = outer.idxLoops, outer.rangeVals, outer.loopsDone
+		if !outer.loopsDone {
+			outer.loops()
+			c.idxLoops, c.rangeVals, c.loopsDone = outer.idxLoops, outer.rangeVals, true
 		}
 	}
 	if body != nil {
@@ -542,6 +577,12 @@ func (c *Canon) Term(e ast.Expr) string {
 		if r, ok := c.roles[o]; ok {
 			return r
 		}
+		if a, ok := c.alias[o]; ok && a.IndexAs != "" {
+			c.loops()
+			if X, isVal := c.rangeVals[o]; isVal {
+				return c.Term(X) + "[" + a.IndexAs + "]"
+			}
+		}
 		if def, ok := c.expand[o]; ok && c.depth < 12 {
 			return c.Term(def)
 		}
@@ -605,6 +646,14 @@ func (c *Canon) Term(e ast.Expr) string {
 		}
 		return "(" + l + " " + x.Op.String() + " " + r + ")"
 	case *ast.IndexExpr:
+		if id, ok := ast.Unparen(x.Index).(*ast.Ident); ok {
+			if a, ok := c.alias[c.Info.ObjectOf(id)]; ok && a.ElemName != "" {
+				c.loops()
+				if X, isLoop := c.idxLoops[c.Info.ObjectOf(id)]; isLoop && types.ExprString(X) == types.ExprString(x.X) {
+					return a.ElemName
+				}
+			}
+		}
 		return c.Term(x.X) + "[" + c.Term(x.Index) + "]"
 	case *ast.SliceExpr:
 		s := c.Term(x.X) + "["
@@ -1049,6 +1098,7 @@ type LocalSig struct {
 	Name string
 	Pos  token.Pos
 	Sig  string
+	Form string // "rv": the value variable of a range statement; "ix": a local defined as X[i] in an index loop over X
 }
 
 // LocalSignatures lists the locals declared in body (including those of nested function literals) in declaration order.
@@ -1180,6 +1230,28 @@ func LocalSignaturesInlined(info *types.Info, recv *ast.FieldList, ftype *ast.Fu
 			}
 		}
 	}
+	forms := map[types.Object]string{}
+	// loop forms: the counter of `for i := 0; i < len(X); i++` is the key of a range over X, and a local defined as
+	// X[i] inside such a loop is the value of that range: both loop forms give the same signatures
+	allBodies := []ast.Node{body}
+	for _, ic := range inl {
+		allBodies = append(allBodies, ic.Decl.Body)
+	}
+	idxLoops := IndexLoops(info, allBodies)
+	elemOf := func(rhs ast.Expr) ast.Expr {
+		ix, ok := ast.Unparen(rhs).(*ast.IndexExpr)
+		if !ok {
+			return nil
+		}
+		id, ok := ast.Unparen(ix.Index).(*ast.Ident)
+		if !ok {
+			return nil
+		}
+		if X, isLoop := idxLoops[info.ObjectOf(id)]; isLoop && types.ExprString(X) == types.ExprString(ix.X) {
+			return X
+		}
+		return nil
+	}
 	scan := func(body ast.Node) {
 		ast.Inspect(body, func(n ast.Node) bool {
 			switch x := n.(type) {
@@ -1187,6 +1259,10 @@ func LocalSignaturesInlined(info *types.Info, recv *ast.FieldList, ftype *ast.Fu
 				if len(x.Lhs) == len(x.Rhs) {
 					for i, l := range x.Lhs {
 						rhs := x.Rhs[i]
+						if X := elemOf(rhs); X != nil && (x.Tok == token.DEFINE || x.Tok == token.ASSIGN) {
+							add(l, func(own types.Object) string { forms[own] = "ix"; return "range value of " + text(X, own) })
+							continue
+						}
 						add(l, func(own types.Object) string { return asgTok(x.Tok) + " " + text(rhs, own) })
 					}
 				} else if len(x.Rhs) == 1 {
@@ -1202,7 +1278,7 @@ func LocalSignaturesInlined(info *types.Info, recv *ast.FieldList, ftype *ast.Fu
 					add(x.Key, func(own types.Object) string { return "range key of " + text(x.X, own) })
 				}
 				if x.Value != nil {
-					add(x.Value, func(own types.Object) string { return "range value of " + text(x.X, own) })
+					add(x.Value, func(own types.Object) string { forms[own] = "rv"; return "range value of " + text(x.X, own) })
 				}
 			case *ast.ValueSpec:
 				for i, id := range x.Names {
@@ -1230,12 +1306,17 @@ func LocalSignaturesInlined(info *types.Info, recv *ast.FieldList, ftype *ast.Fu
 	for _, ic := range inl {
 		scan(ic.Decl.Body)
 	}
+	for o, X := range idxLoops {
+		if _, known := pos[o]; known {
+			defs[o] = []string{"range key of " + text(X, o)}
+		}
+	}
 	var out []LocalSig
 	for _, o := range order {
 		// (order-insensitive: swapping the branches of an if/else does not change what a local is)
 		ds := append([]string(nil), defs[o]...)
 		sort.Strings(ds)
-		out = append(out, LocalSig{Obj: o, Name: o.Name(), Pos: pos[o], Sig: types.TypeString(o.Type(), nil) + " | " + strings.Join(ds, " ; ")})
+		out = append(out, LocalSig{Obj: o, Name: o.Name(), Pos: pos[o], Sig: types.TypeString(o.Type(), nil) + " | " + strings.Join(ds, " ; "), Form: forms[o]})
 	}
 	return out
 }
